@@ -23,7 +23,7 @@ from ..progs import Boom, boom_for
 
 rs = bootstrap()
 
-FAIL_OPS = ['map', 'starmap', 'filter', 'scan', 'scan_reduce', 'scan_list', 'sum_km', 'mean_km', 'variance_km', 'max_km', 'stddev_km', 'fvariance_km']
+FAIL_OPS = ['map', 'map_exc_values', 'starmap', 'filter', 'scan', 'scan_reduce', 'scan_list', 'sum_km', 'mean_km', 'variance_km', 'max_km', 'stddev_km', 'fvariance_km']
 AGG = {'sum_km': lambda **kw: rs.math.sum(**kw), 'mean_km': lambda **kw: rs.math.mean(**kw), 'variance_km': lambda **kw: rs.math.variance(**kw),
        'max_km': lambda **kw: rs.math.max(**kw), 'stddev_km': lambda **kw: rs.math.stddev(**kw), 'fvariance_km': lambda **kw: rs.math.formal.variance(**kw)}
 DRIVES = ['cold', 'cold', 'hot_errors_first', 'hot_data_first']
@@ -56,6 +56,15 @@ def fail_op(kind, F, mode):
         if mode == 'faulty' and item_id(x) in F:
             raise boom_for(item_id(x), x)
     inF = lambda x: item_id(x) in F                            # noqa: E731
+    if kind == 'map_exc_values':
+        # the mapper RETURNS exception instances (a failure log being reprocessed, errors kept inline as items): a returned
+        # exception is a value, only a raised one is an error
+        def fv(x):
+            chk(x)
+            return ValueError('value %d' % x) if x % 3 == 1 else KeyError(x) if x % 3 == 2 else x
+        if mode == 'replaced':
+            return [rs.ops.map(lambda x: g_err(Boom(x)) if inF(x) else (ValueError('value %d' % x) if x % 3 == 1 else KeyError(x) if x % 3 == 2 else x))]
+        return [rs.ops.map(fv)]
     if kind == 'map':
         def f(x):
             chk(x)
@@ -121,6 +130,9 @@ def _r9(v):
 
 
 def downstream(kind, listy=False):
+    if listy == 'exc':
+        # the failing operator emits exception instances as values: turn them into ints first
+        return [rs.ops.map(lambda v: v if (v is None or isinstance(v, int)) else 500 + len(str(v)))] + downstream(kind)
     if listy:
         # the failing operator emits lists (scan_list): reduce them to ints first
         return [rs.ops.map(lambda v: v if (v is None or isinstance(v, int)) else sum(v) + 31 * len(v))] + downstream(kind)
@@ -232,7 +244,7 @@ class C13(Check):
             if drive != 'hot_data_first':
                 sub_errors()
             ops_.append(route())
-        ops_ += downstream(case['down'], listy=(case['op'] == 'scan_list'))
+        ops_ += downstream(case['down'], listy=('exc' if case['op'] == 'map_exc_values' else case['op'] == 'scan_list'))
         if case['ctx'] == 'group':
             gof = {i: g for i, g in enumerate(groups)}
             keyf = (lambda x: gof[item_id(x)])
